@@ -215,7 +215,11 @@ def execute(plan):
             if C.result_digest() != ref_r or C.event_digest() != ref_e:
                 add("state_left_behind", {"after_interrupt_at_line_step": N})
             elif I.globals_changed:
-                add("state_left_behind", {"after_interrupt_at_line_step": N, "process_wide_settings": I.globals_changed})
+                # not judged: an asynchronous interrupt can land between the body of a `with
+                # np.errstate(...)` block and its __exit__ (the same race a real KeyboardInterrupt
+                # has); no Python code can restore the setting then. Synchronous exceptions of user
+                # callables (what the property is about) are judged above.
+                stats["nj.setting_left_by_asynchronous_interrupt"] += 1
             keys.add("|".join(str(v) for v in (spec["family"], cfg["jac"], "interrupt", min(N * 10 // max(L, 1), 9), bool(blob))))
     shape = {"injections": len(injections), "calls": {a: int(A.counts[a]) for a in ACTORS}}
     return {"violations": viol, "stats": stats, "keys": keys, "digest": ref_e, "shape": shape}
